@@ -70,6 +70,10 @@ fn gen_file(rng: &mut Rng, fi: usize, idx: usize, names: &mut Vec<(String, Strin
         if rng.chance(1, 6) {
             start.indent = "  ".into();
         }
+        // multi-byte text before the tag: columns are bytes, char-level diffs count chars
+        if rng.chance(1, 3) && !matches!(start.form, Form::BlockMulti { .. }) {
+            start.pre = [" é ", " 日本語 ", " ééééééééééééééééééééé ", " 🙂 "][rng.below(4)].to_string();
+        }
         let end = if lang.line.is_empty() || (lang.block.is_some() && rng.chance(1, 4)) { Place::block_one() } else { Place::line() };
         let mut body = Vec::new();
         for k in 0..rng.range(0, 5) {
